@@ -69,6 +69,7 @@ type Cfg struct {
 	Copy      bool          `json:"copy_fields,omitempty"` // splunk: copy svc to fields.svc of the envelope
 	Reconnect time.Duration `json:"reconnect,omitempty"`   // gelf: reconnect_interval
 	Retention time.Duration `json:"retention,omitempty"`   // file: retention_interval (the file is sealed and a new one started)
+	DLQ       bool          `json:"dead_queue,omitempty"`  // a dead-queue output is configured: a given-up batch is observable there
 	Events    []Ev          `json:"events"`
 }
 
@@ -77,7 +78,7 @@ func (c *Cfg) SimCfg() *simrt.Config { return &c.Sim }
 type H struct{}
 
 func (h *H) Name() string     { return "h9outputs" }
-func (h *H) Props() []string  { return []string{"C19"} }
+func (h *H) Props() []string  { return []string{"C19", "C09"} }
 func (h *H) NewCfg() core.Cfg { return &Cfg{} }
 
 var nasty = []string{"plain", "", "with \"quotes\"", "back\\slash", "new\nline", "tab\tand\rcr", "ctl\x01\x1f", "utf8 ünï", "bad\xff\xfeutf", "}{", "\"}}\n{\"index\"", strings.Repeat("long", 50), "a/b-c_d", "sp ace", "%", "\\\"", " "}
@@ -117,6 +118,26 @@ func (h *H) Gen(rng *rand.Rand, tier, prop string) core.Cfg {
 		}
 	}
 	c.Sim.QuietAt = 20 * time.Second
+	c.DLQ = c.Sink != "file" && core.Chance(rng, 0.5)
+	if prop == "C09" {
+		// the retry/dead-queue routing of the real outputs: a dead queue makes a give-up observable
+		for c.Sink == "file" {
+			c.Sink = core.Pick(rng, "es", "http", "splunk", "kafka", "loki", "gelf")
+		}
+		c.Retention, c.Gzip = 0, false
+		c.Sim.StepCost = time.Microsecond
+		c.DLQ = true
+		c.Sim.Faults["sink.status5xx"] = core.Pick(rng, 0.1, 0.3, 0.6)
+		c.Sim.Faults["sink.transport"] = core.Pick(rng, 0.0, 0.1)
+		if c.Sink == "gelf" {
+			c.Sim.Faults["net.dialerr"] = core.Pick(rng, 0.1, 0.3)
+			c.Sim.Faults["net.writeerr"] = core.Pick(rng, 0.1, 0.3)
+			c.Sim.Faults["net.shortwrite"] = core.Pick(rng, 0.0, 0.2)
+			if c.Reconnect == 0 {
+				c.Reconnect = time.Second
+			}
+		}
+	}
 	n := core.Between(rng, 1, 30)
 	if tier == "thorough" {
 		n = core.Between(rng, 1, 100)
@@ -391,6 +412,20 @@ type run struct {
 	tooLarge map[int]bool
 	had5xx   bool
 	had413   int
+	inDLQ    map[int]bool
+}
+
+// dlq is the dead-queue output of the runs that configure one: it records which events a given-up batch
+// handed over and commits them (the main output does not commit a batch it routed to the dead queue).
+type dlq struct{ r *run }
+
+func (d *dlq) Start(pipeline.AnyConfig, *pipeline.OutputPluginParams) {}
+func (d *dlq) Stop()                                                  {}
+func (d *dlq) Out(e *pipeline.Event) {
+	if id, ok := d.r.events[e]; ok {
+		d.r.inDLQ[id] = true
+		d.r.commits[id]++
+	}
 }
 
 type ctl struct{ r *run }
@@ -729,7 +764,7 @@ func trunc(b []byte) string {
 func (h *H) Run(cc core.Cfg, sim *simrt.Sim) *core.Outcome {
 	cfg := cc.(*Cfg)
 	o := &core.Outcome{NonTrivial: map[string]bool{}, Probes: map[string]int{}}
-	r := &run{cfg: cfg, o: o, byID: map[int]Ev{}, want: map[int]any{}, deliv: map[int][]delivery{}, commits: map[int]int{}, events: map[*pipeline.Event]int{}, tooLarge: map[int]bool{}}
+	r := &run{cfg: cfg, o: o, byID: map[int]Ev{}, want: map[int]any{}, deliv: map[int][]delivery{}, commits: map[int]int{}, events: map[*pipeline.Event]int{}, tooLarge: map[int]bool{}, inDLQ: map[int]bool{}}
 	for _, e := range cfg.Events {
 		r.byID[e.ID] = e
 		w, err := norm([]byte(evJSON(e)))
@@ -821,6 +856,9 @@ func (h *H) Run(cc core.Cfg, sim *simrt.Sim) *core.Outcome {
 		pl, _ := static.Factory()
 		plugin := pl.(pipeline.OutputPlugin)
 		router := pipeline.NewRouter()
+		if cfg.DLQ {
+			router.SetDeadQueueOutput(&pipeline.OutputPluginInfo{PluginStaticInfo: &pipeline.PluginStaticInfo{Type: "simdlq"}, PluginRuntimeInfo: &pipeline.PluginRuntimeInfo{Plugin: &dlq{r: r}}})
+		}
 		plugin.Start(conf, &pipeline.OutputPluginParams{
 			PluginDefaultParams: pipeline.PluginDefaultParams{PipelineName: name, PipelineSettings: &pipeline.Settings{AvgEventSize: 64, Capacity: 64}, MetricCtl: metric.NewCtl(name, prometheus.NewRegistry(), 0, 0)},
 			Controller:          &ctl{r: r}, Router: router, Logger: h1pipe.QuietLogger().Sugar(),
@@ -894,8 +932,11 @@ func (h *H) Run(cc core.Cfg, sim *simrt.Sim) *core.Outcome {
 			if r.tooLarge[e.ID] {
 				continue // cannot be delivered on its own: the documented drop
 			}
-			if r.had5xx {
-				continue // retries may have been exhausted: the documented give-up (C09's business)
+			if cfg.DLQ && r.inDLQ[e.ID] {
+				continue // given up after the configured attempts and handed to the dead queue
+			}
+			if !cfg.DLQ && r.had5xx {
+				continue // retries may have been exhausted: the documented give-up (not observable without a dead queue; C09's business)
 			}
 			sig := "event-missing"
 			if cfg.Limit413 > 0 && r.had413 > 0 {
@@ -908,11 +949,18 @@ func (h *H) Run(cc core.Cfg, sim *simrt.Sim) *core.Outcome {
 				}
 			}
 			r.viol(sig, "event id %d was committed but no successfully answered payload carried it (limit_413=%d split=%v, %d requests, %d answered 413)", e.ID, cfg.Limit413, cfg.Split, r.requests, r.had413)
+			if cfg.DLQ {
+				r.o.Violate("C09", "committed-without-delivery-or-dead-queue", "%s output: event id %d was committed by the main output although no successfully answered payload carried it and it was not handed to the dead queue: a failed send was neither retried to success nor given up (limit_413=%d split=%v retry=%d, %d requests)", cfg.Sink, e.ID, cfg.Limit413, cfg.Split, cfg.Retry, r.requests)
+			}
 		case okCount > 1 && !retried:
 			r.viol("event-delivered-twice", "event id %d is carried by %d successfully answered payloads although nothing was retried", e.ID, okCount)
 		}
 	}
 	o.NonTrivial["C19"] = r.requests > 0 && len(cfg.Events) > 1
+	o.NonTrivial["C09"] = r.had5xx && cfg.DLQ
+	if len(r.inDLQ) > 0 {
+		o.Probes["events-in-dead-queue"] += len(r.inDLQ)
+	}
 	o.Probes["413-answers"] += r.had413
 	o.Probes["sink."+cfg.Sink]++
 	if cfg.Sink == "file" && r.requests > 1 {
